@@ -100,13 +100,13 @@ PROPS = {
         'not_decided': ['HTS wildcard semantics of question matching', 'split_sections / header serde / window rows / tree text -> node table (parse_node; convert_tree beyond one-node trees)', 'f32 little-endian PDF block offsets in parse_model'],
     },
     'C18': {
-        'technique': 'Kani harnesses (built-in panic / overflow / index checks) on the loader\'s own slicing, integer accumulation and the PDF-length expressions of parse_data_section (cut from its text every run)',
+        'technique': 'Kani harnesses (built-in panic / overflow / index checks) on the loader\'s own slicing, integer accumulation, the PDF-length expressions of parse_data_section, the key splitting of the header map visitor, the real bodies of convert_tree and parse_window_row (all cut from the text every run; std BTreeMap / nom combinators replaced by stated stand-ins)',
         'level_text': 'function-level: for every range / digit string / reference in the stated bounds the mechanism returns Ok or Err and never panics',
         'level_note': 'PARTIAL: nom combinators, serde, jlabel-question parse and regex are outside the verifier (assumed panic-free, non-looping, allocation-capped); whole-file quantification over arbitrary bytes is not reached; convert_tree is out of CBMC\'s reach (repaired, demonstrated natively)',
         'verus': [],
         'assumptions': ['nom 8, serde, jlabel-question, regex never panic and never loop on empty matches (not verified)'],
         'trusted_base': [],
-        'not_decided': ['whole-file quantifier (any byte sequence)', 'allocation bounds', 'convert_tree beyond one-node trees', 'key slicing beyond 5-byte ASCII keys'],
+        'not_decided': ['whole-file quantifier (any byte sequence)', 'allocation bounds beyond the window-row count (nom many_m_n caps assumed)', 'convert_tree beyond one-node trees', 'key slicing beyond 5-byte ASCII keys'],
     },
     'C13': {
         'technique': 'Verus contracts on the extracted text of LineSpectralPairs::{lsp2lpc, lsp2mgc}, Generalized::{gnorm, ignorm}, MelGeneralizedCepstrum::{gc2gc, mgc2mgc} and MelGeneralizedLogSpectrumApproximation::{df, dff} (IEEE ops, cos, exp, ln, powf uninterpreted); the two iterator-chain holes and an API-level polynomial-product harness checked by Kani',
